@@ -86,6 +86,7 @@ def gen_case(rng, i):
             'capacity': dy(rng, 1, 12, 1) if rng.random() < .9 else F(1, 2), 'start': dy(rng, 0, 1, 3), 'reserve': dy(rng, 0, 1, 2),
             'efficiency': pick(rng, SUS), 'sustainment': pick(rng, SUS),
             'rate_clip': pick(rng, [None, None, None, (F(1), None), (None, F(2)), (F(3, 2), F(1))]),
+            'post_set': rng.random() < 0.3,     # sustainment/efficiency/start assigned through setters after construction
             'r': gen_flow(rng, n)}
   ext_kind = pick(rng, ['any', 'any', 'neg', 'zero', 'pos'])
   ext = {'any': lambda: dy(rng, -12, 30, 1), 'neg': lambda: dy(rng, -12, F(-1, 2), 1), 'zero': lambda: F(0),
@@ -110,7 +111,11 @@ def build(c):
     if c['rate_clip'] is not None:
       kw['rate_clip'] = tuple(None if v is None else float(v) for v in c['rate_clip'])
     cb = (-1000.0, 1000.0) if c['cb_pair'] else None
-    return dk.SDevice('s', n, np.array(fl([list(b) for b in c['bounds']])), cb, **kw)
+    post = {k: kw.pop(k) for k in ('sustainment', 'efficiency', 'start')} if c.get('post_set') else {}
+    d = dk.SDevice('s', n, np.array(fl([list(b) for b in c['bounds']])), cb, **kw)
+    for k, v in post.items():
+      setattr(d, k, v)
+    return d
   return dk.TDevice('t', n, (-4.0, 4.0), float(c['sustainment']), float(c['efficiency']), float(c['t_init']), float(c['t_optimal']),
                     float(c['t_range']), fl(c['t_external']))
 
